@@ -27,6 +27,18 @@ class PromiseCore : public std::conditional_t<Shared, SharedCore<V, E>, UniqueCo
   explicit PromiseCore(Func&& f) : F{std::forward<Func>(f)} {
   }
 
+  // Entered as the head of a Task (LazyContract) that was returned from a continuation or awaited: start it
+  [[nodiscard]] InlineCore* Here(InlineCore& /*caller*/) noexcept final {
+    this->_executor->Submit(*this);
+    return nullptr;
+  }
+#if YACLIB_SYMMETRIC_TRANSFER != 0
+  [[nodiscard]] yaclib_std::coroutine_handle<> Next(InlineCore& /*caller*/) noexcept final {
+    this->_executor->Submit(*this);
+    return yaclib_std::noop_coroutine();
+  }
+#endif
+
  private:
   void Call() noexcept final {
     PromiseT promise{CorePtrT{NoRefTag{}, this}};
